@@ -558,8 +558,11 @@ impl<V: Val> Runner<V> {
                 let tot = |ks: &mut dyn Iterator<Item = u8>| -> usize { ks.map(|x| cand[&x].footprint).sum() };
                 // stored value must be the new one (C01 replaced-value clause, checked on the store itself)
                 if let Some(e) = post.store.get(&name) {
-                    if e.ident != (k, variant) && !oversized {
-                        obs.findings.push(Finding { property: "C01", monitor: "store-kept-old-value", detail: format!("put k{k} v{variant}: the cache still holds k{}v{}", e.ident.0, e.ident.1) });
+                    if e.ident != (k, variant) {
+                        // also when the new value is too large to be cached: the old one has been superseded and
+                        // must not be served again (all three stores drop it)
+                        let mon = if oversized { "superseded-value-kept-after-oversized-store" } else { "store-kept-old-value" };
+                        obs.findings.push(Finding { property: "C01", monitor: mon, detail: format!("put k{k} v{variant}: the cache still holds k{}v{}", e.ident.0, e.ident.1) });
                     }
                 }
                 // --- C04
@@ -980,7 +983,9 @@ fn spec_for<V: Val>(property: &str, thorough: bool, cfg: Config, mp: &MemPlan) -
         None => 3,
     };
     let variants: Vec<(u8, usize)> = if has_mem {
-        if thorough {
+        // variant 2 fits alone but not next to anything else under the tight budget (a newcomer that is
+        // larger than everything that remains)
+        if thorough || matches!(property, "C16" | "C05" | "C08") {
             vec![(0, mp.payloads[0]), (1, mp.payloads[1]), (2, mp.payloads[2]), (3, mp.payloads[3])]
         } else {
             vec![(0, mp.payloads[0]), (1, mp.payloads[1]), (3, mp.payloads[3])]
